@@ -78,6 +78,7 @@ const USAGE: &str = "usage:
   vharness run --ops <file> --obs <file>
   vharness gen --seed <u64> --hists <N> --len <L> --profile <core|alloc|iters|print|serde|value|misuse>
                --ops <file> --obs <file> [--stats <json>] [--max-nodes <k>] [--start <first history>]
+               [--prefix <one-history ops file replayed at the start of every history>]
   vharness stamps --out <file>
   vharness selfcheck --seed <u64> --hists <N> --len <L> --out <file>";
 
@@ -134,6 +135,10 @@ fn cmd_gen(a: &Args) -> Result<(), String> {
         profile: gen::Profile::parse(a.str("profile")?)?,
         max_nodes: a.num_or("max-nodes", 20)?,
         start: a.num_or("start", 0)?,
+        prefix: match a.str("prefix") {
+            Ok(p) => gen::read_prefix(&std::fs::read_to_string(p).map_err(|e| io_err(p, e))?),
+            Err(_) => Vec::new(),
+        },
     };
     let ops: Box<dyn Write> = Box::new(create(a.str("ops")?)?);
     let obs: Box<dyn Write> = Box::new(create(a.str("obs")?)?);
